@@ -359,7 +359,35 @@ func IsException(exception *Type, r interface{}) bool {
 
 // FIXME prototype __getattr__ before we do introspection!
 func (e *Exception) M__getattr__(name string) (Object, error) {
-	return e.Args, nil // FIXME All attributes are args!
+	orNone := func(o Object) (Object, error) {
+		if o == nil {
+			return None, nil
+		}
+		return o, nil
+	}
+	switch name {
+	case "args":
+		return e.Args, nil
+	case "__traceback__":
+		return orNone(e.Traceback)
+	case "__context__":
+		return orNone(e.Context)
+	case "__cause__":
+		return orNone(e.Cause)
+	case "value":
+		// StopIteration.value is the first argument or None
+		if e.Base.IsSubtype(StopIteration) {
+			if args, ok := e.Args.(Tuple); ok && len(args) > 0 {
+				return args[0], nil
+			}
+			return None, nil
+		}
+	}
+	// Extra attributes, eg those of SyntaxError
+	if res, ok := e.Dict[name]; ok {
+		return res, nil
+	}
+	return nil, ExceptionNewf(AttributeError, "'%s' object has no attribute '%s'", e.Base.Name, name)
 }
 
 func (e *Exception) M__str__() (Object, error) {
